@@ -1332,6 +1332,24 @@ func (s *Seq) OpRestore(qs []cashu.BlindedMessage) {
 		return L(A("ok"), Ls(xs))
 	})
 	if isOk(res.out) {
+		// C10: every restored (blinded message, signature) pair carries a DLEQ that verifies for THAT message under the
+		// keyset's published key for that amount
+		for i := range sigs {
+			if i >= len(outs) {
+				break
+			}
+			g := sigs[i]
+			if g.DLEQ == nil {
+				s.c.MonitorFail("C10", "C10/restore-dleq-missing", "a restored signature carries no DLEQ", s.replay())
+				break
+			}
+			if ks, err := s.env.M.GetKeysetById(g.Id); err == nil {
+				if K, ok := ks.Keys[g.Amount]; !ok || !nut12.VerifyBlindSignatureDLEQ(*g.DLEQ, K, outs[i].B_, g.C_) {
+					s.c.MonitorFail("C10", "C10/restore-dleq-invalid", "a restored signature's DLEQ does not verify for the blinded message it is returned with", s.replay())
+					break
+				}
+			}
+		}
 		// C15 monitor: exactly the signed ones, in request order, with the original signature
 		var want []string
 		for _, q := range qs {
@@ -1348,12 +1366,6 @@ func (s *Seq) OpRestore(qs []cashu.BlindedMessage) {
 				if outs[i].B_ != b || g.Amount != o.Amount || g.Id != o.Id || g.C_ != o.C_ || g.DLEQ == nil || o.DLEQ == nil || g.DLEQ.E != o.DLEQ.E || g.DLEQ.S != o.DLEQ.S {
 					s.c.MonitorFail("C15", "C15/restore/differs", "restore returned a signature that differs from the one originally returned", s.replay())
 					break
-				}
-				// C10: restored signatures still carry a verifying DLEQ
-				if ks, err := s.env.M.GetKeysetById(g.Id); err == nil {
-					if K, ok := ks.Keys[g.Amount]; ok && !nut12.VerifyBlindSignatureDLEQ(*g.DLEQ, K, b, g.C_) {
-						s.c.MonitorFail("C10", "C10/restore-dleq-invalid", "a restored signature's DLEQ does not verify", s.replay())
-					}
 				}
 			}
 		}
